@@ -192,6 +192,33 @@ def decodeString (fixed : Bool) (c : CfgIn) : Outcome Unit :=
     | .err _ => .ok ()      -- `return data, nil`
     | .ok fk => decodeTail c fk
 
+/-! ### `metadata.exponentTooLarge` (bytesize_decoder.go, fix a0f5161) -/
+
+/-- `strings.LastIndexAny(str, "eE")`: the library's post-condition is `-1 ≤ i < len(str)` -/
+def lastIdxE : Bytes → Nat → Option Nat → Option Nat
+  | [], _, acc => acc
+  | c :: cs, i, acc => lastIdxE cs (i + 1) (if c == 101 || c == 69 then some i else acc)
+
+def isDigit (c : UInt8) : Bool := 48 ≤ c.toNat && c.toNat ≤ 57
+
+/-- `true` = the value ends in a decimal exponent beyond `maxQuantityExponent` (refused before
+`resource.ParseQuantity` would compute 10^|exponent|). -/
+def exponentTooLarge (str : Bytes) : Outcome Bool :=
+  match lastIdxE str 0 none with
+  | none => .ok false                                        -- i < 0
+  | some i =>
+    if i + 1 = str.length then .ok false                     -- i == len(str)-1
+    else
+      (slice str (i + 1) str.length).bind fun digits =>      -- str[i+1:]
+        (idx digits 0).bind fun c0 =>                        -- digits[0] == '+'
+          (if c0 == 43 then .ok true else (idx digits 0).bind fun c1 => .ok (c1 == 45)).bind fun signed =>
+            (if signed then slice digits 1 digits.length else .ok digits).bind fun d =>   -- digits[1:]
+              if d == [] then .ok false
+              else if !d.all isDigit then .ok false
+              else match atoi d with
+                | none => .ok true
+                | some n => .ok (decide (n > 1000))
+
 /-! ### `config.Normalize` -/
 
 inductive Val where
